@@ -247,8 +247,12 @@ Base(s) == ValSeq(s)[1]
 Leaves == <<JNull, JBool(TRUE), JNum(FALSE, <<0>>, <<>>), JNum(FALSE, <<1>>, <<5>>), JStr(<<>>), JStr(<<97>>),
             JStr(<<48, 120, 48, 48>>), JArr(<<>>), JObj(NoKeys)>>
 LeafSet == {Leaves[i] : i \in 1..Len(Leaves)}
-Family == LeafSet \cup {JArr(<<x>>) : x \in LeafSet} \cup {JArr(<<x, y>>) : x \in LeafSet, y \in LeafSet}
-          \cup {JObj(k :> x) : k \in {"type", "data", "a"}, x \in LeafSet}
+\* strings at the edges of the hex / number texts: "0" (a lone digit: a decimal number, not a hex string), "0x" (a prefix
+\* without digits: the empty byte string, not a quantity), "0x0" (an odd number of digits: a quantity, not a byte string)
+EdgeStrs == {JStr(<<48>>), JStr(<<48, 120>>), JStr(<<48, 120, 48>>)}
+LeafSet2 == LeafSet \cup EdgeStrs
+Family == LeafSet2 \cup {JArr(<<x>>) : x \in LeafSet2} \cup {JArr(<<x, y>>) : x \in LeafSet, y \in LeafSet}
+          \cup {JObj(k :> x) : k \in {"type", "data", "a"}, x \in LeafSet2}
 
 \* a path is a sequence of steps [k |-> key, i |-> 0] (object member) / [k |-> "", i |-> index] (array element)
 KStep(k) == [k |-> k, i |-> 0]
